@@ -394,4 +394,81 @@ theorem movePosN_lz_bounds (N : NormParams) (hN : N.ok) (P : Bt4Params) (c : Cfg
     · have : (movePos P c dsize s).1.lzPos ≠ N.maxPos := fun e => hc ⟨h1.1, e⟩
       constructor <;> omega
 
+/-- `cyclic_size ≤ lz_pos < maxPos` -/
+def LzB (N : NormParams) (P : Bt4Params) (c : Cfg) (s : St) : Prop :=
+  cyclicSize P c ≤ s.lzPos ∧ s.lzPos < N.maxPos
+
+theorem hashStage_lzPos (P : Bt4Params) (c : Cfg) (data : Array UInt8) (s : St) :
+    (hashStage P c data s).st.lzPos = s.lzPos := by
+  obtain ⟨a2, a3, a4, at_, acp, alz, apos, alog⟩ := s; rfl
+
+theorem skipTree_lzPos (P : Bt4Params) (c : Cfg) (data : Array UInt8) (s : St) (nl cur : Nat) :
+    (skipTree P c data s nl cur).lzPos = s.lzPos := by rw [skipTree_eq]
+
+theorem findTail_lzPos (P : Bt4Params) (c : Cfg) (data : Array UInt8) (st : St) (cur ll nl lb : Nat)
+    (ms : Array Match) (lg : Log) : (findTail P c data st cur ll nl lb ms lg).1.lzPos = st.lzPos := by
+  unfold findTail
+  by_cases hcond : ms.size > 0 ∧ geOrGt P.niceStopGe lb nl = true
+  · rw [if_pos hcond, skipTree_lzPos]
+  · rw [if_neg hcond]
+
+theorem findAfter_lzPos (P : Bt4Params) (c : Cfg) (data : Array UInt8) (s : St) (avail : Nat) :
+    (findAfter P c data (s, avail)).1.lzPos = s.lzPos := by
+  rw [findAfter_eq]
+  by_cases hc : avail < c.mlmax ∧ avail = 0
+  · rw [if_pos hc]
+  · rw [if_neg hc]
+    simp only [findTail_lzPos]
+    exact hashStage_lzPos P c data s
+
+theorem skipOneAfter_lzPos (P : Bt4Params) (c : Cfg) (data : Array UInt8) (s : St) (avail : Nat) :
+    (skipOneAfter P c data (s, avail)).lzPos = s.lzPos := by
+  rw [skipOneAfter_eq]
+  by_cases hc : avail < c.niceLen ∧ avail = 0
+  · rw [if_pos hc]
+  · rw [if_neg hc, skipTree_lzPos]; exact hashStage_lzPos P c data s
+
+theorem findN_lzB (N : NormParams) (hN : N.ok) (P : Bt4Params) (c : Cfg) (data : Array UInt8) (s : St)
+    (h : LzB N P c s) : LzB N P c (findN N P c data s).1 := by
+  unfold LzB findN
+  rw [show movePosN N P c data.size s = ((movePosN N P c data.size s).1, (movePosN N P c data.size s).2) from rfl,
+    findAfter_lzPos]
+  exact movePosN_lz_bounds N hN P c data.size s h.1 h.2
+
+theorem skipN_lzB (N : NormParams) (hN : N.ok) (P : Bt4Params) (c : Cfg) (data : Array UInt8) (n : Nat) :
+    ∀ s, LzB N P c s → LzB N P c (skipN N P c data n s) := by
+  induction n with
+  | zero => intro s h; exact h
+  | succ n ih =>
+    intro s h
+    refine ih _ ?_
+    unfold LzB skipOneN
+    rw [show movePosN N P c data.size s = ((movePosN N P c data.size s).1, (movePosN N P c data.size s).2) from rfl,
+      skipOneAfter_lzPos]
+    exact movePosN_lz_bounds N hN P c data.size s h.1 h.2
+
+theorem runOpsN_lzB (N : NormParams) (hN : N.ok) (P : Bt4Params) (c : Cfg) (data : Array UInt8)
+    (script : List Nat) : ∀ (s : St) (tr : Array (Nat × List Match)), LzB N P c s →
+      LzB N P c (runOpsN N P c data script s tr).1 := by
+  induction script with
+  | nil => intro s tr h; exact h
+  | cons op rest ih =>
+    intro s tr h
+    simp only [runOpsN]
+    split
+    · exact h
+    · rw [show runOpN N P c data op s tr = ((runOpN N P c data op s tr).1, (runOpN N P c data op s tr).2) from rfl]
+      refine ih _ _ ?_
+      unfold runOpN
+      split
+      · exact findN_lzB N hN P c data s h
+      · exact skipN_lzB N hN P c data op s h
+
+theorem runScriptN_lz_lt (N : NormParams) (hN : N.ok) (P : Bt4Params) (c : Cfg) (data : Array UInt8)
+    (lzStart : Nat) (script : List Nat) (logging : Bool)
+    (hs : cyclicSize P c ≤ lzStart) (hlt : lzStart < N.maxPos) :
+    (runScriptN N P c data lzStart script logging).1.lzPos < N.maxPos := by
+  unfold runScriptN
+  exact (runOpsN_lzB N hN P c data script _ #[] ⟨hs, hlt⟩).2
+
 end LzmaVerif.Mf.Bt4
